@@ -91,6 +91,10 @@ def enumerate_faults(text):
                     out.append({'k': 'ws_flip', 'p': pos, 'w': w})
     for c in range(len(TAIL)):
         out.append({'k': 'tail', 'c': c})
+    for k, a, b in tokenize(text):
+        if k not in ('ws', 'other'):
+            for v in range(len(LAYOUT)):
+                out.append({'k': 'layout', 'p': a, 'v': v})
     toks = [(k, a, b) for k, a, b in tokenize(text) if k != 'ws']
     for ti, (k, a, b) in enumerate(toks):
         out.append({'k': 'tok_del', 't': ti})
@@ -109,6 +113,8 @@ def enumerate_faults(text):
     return out
 
 
+# layout inserted in front of a token: the tree must keep its shape, every position must follow the new layout
+LAYOUT = ['/* c */', '/*\n * two\n * lines */\n\t', '// line comment\n', '\t', '\n\n   ', ' \r\n ', '/**/']
 TAIL = ['\x0c', '\x0b', '\xa0', '\u2028', '\x1c \n', '$', '\\', '\x00', ' \x0c  \n', '@\t', '"', "'", '/*', '//']
 
 
@@ -116,6 +122,11 @@ def apply_fault(text, f):
     k = f['k']
     if k == 'trunc':
         return text[:f['p']]
+    if k == 'layout':
+        p = f['p']
+        if p > len(text):
+            return None
+        return text[:p] + LAYOUT[f['v'] % len(LAYOUT)] + text[p:]
     if k == 'tail':
         # garbage appended by a torn write of the *next* record: a stray character closes the text
         return text + TAIL[f['c'] % len(TAIL)]
@@ -228,7 +239,7 @@ class OalFaultEngine(Engine):
             for b, (name, text) in enumerate(self.bodies):
                 n = len(enumerate_faults(text))
                 if tr == 'quick':
-                    n = (n + 1) // 2
+                    n = (n + 2) // 3
                 for lo in range(0, n, self.SLICE):
                     out.append((b, lo, min(n, lo + self.SLICE)))
             self.slices[tr] = out
@@ -245,7 +256,7 @@ class OalFaultEngine(Engine):
                      'bodies covering every statement production); fault sites: truncation after every character, every '
                      'whitespace character flipped among space/tab/newline/CR, per token delete / duplicate / swap / '
                      'lexical-class flip / character flips, loss of either delimiter of comments and strings. Quick tier: '
-                     'a seeded half of the sites; thorough: every site (pass 1), seeded double faults (pass 2) and every '
+                     'a seeded third of the sites; thorough: every site (pass 1), seeded double faults (pass 2) and every '
                      'site end to end through a model file on the simulated disk (pass 3). A case is the faulted text; '
                      'non-trivial when it differs from the original; distinct_nontrivial counts distinct faulted texts.'
                      % len(getattr(self, 'bodies', []) or load_bodies())),
@@ -290,7 +301,7 @@ class OalFaultEngine(Engine):
                             redos.append({'k': 'redos', 'o': o, 'u': u, 'n': n})
             ops = redos + ops
         cfg = {'body': name, 'e2e': 1.0 if mode == 2 else 0.04, 'route_seed': rng.getrandbits(32),
-               'meter_every': 9, 'slow_s': self.SLOW_S, 'fresh_parser_every': 50}
+               'meter_every': 17, 'slow_s': self.SLOW_S, 'fresh_parser_every': 50}
         return {'prop': prop, 'engine': self.name, 'seed': seed, 'cfg': cfg, 'ops': ops}
 
     def relax_for_confirmation(self, case):
@@ -511,7 +522,7 @@ class OalFaultEngine(Engine):
 
     def reach_missing(self, prop, tier, probes, faults):
         missing = []
-        for k in ('trunc', 'ws_flip', 'tok_del', 'tok_dup', 'tok_swap', 'tok_flip', 'chr_flip', 'delim', 'redos'):
+        for k in ('trunc', 'ws_flip', 'tok_del', 'tok_dup', 'tok_swap', 'tok_flip', 'chr_flip', 'delim', 'redos', 'layout'):
             if not probes.get(k + '_tree'):
                 missing.append(k + '_tree')
             if not probes.get(k + '_ParseException'):
